@@ -177,6 +177,28 @@ class UNewMismatch(Exception):
     self.code, self.detail = code, detail
 
 
+class _Field:
+  """A hand-written data descriptor keeping per-instance values outside the instance dict."""
+  def __init__(self, default):
+    import weakref
+    self.default, self.data = default, weakref.WeakKeyDictionary()
+
+  def __get__(self, obj, owner):
+    return self if obj is None else self.data.get(obj, self.default)
+
+  def __set__(self, obj, value):
+    self.data[obj] = value
+
+
+class UDescr(Exception):
+  limit = _Field(0)
+  tenant = _Field(None)
+
+  def __init__(self, msg, limit, tenant):
+    super().__init__(msg)
+    self.limit, self.tenant = limit, tenant
+
+
 class UKwOnly(Exception):
   def __init__(self, *, code):
     super().__init__('code=%s' % code)
@@ -189,6 +211,7 @@ USER = {
     'UBase': lambda: UBase('base', 1), 'USub': lambda: USub('sub', 2), 'USubSub': lambda: USubSub('subsub', 3),
     'UMulti': lambda: UMulti('key'), 'UOs': lambda: UOs(errno.EACCES, 'denied', '/x'), 'UKwOnly': lambda: UKwOnly(code=5),
     'UClassDefault': lambda: UClassDefault('cd', 5), 'UNewMismatch': lambda: UNewMismatch(3, 'd'),
+    'UDescr': lambda: UDescr('quota', 100, 'acme'),
 }
 
 
